@@ -57,6 +57,11 @@ def et_configs(g, tier):
                 seen.add(key)
                 reps.append(t)
         tags = reps
+    if tier == "quick":
+        # every tag once in its plainest configuration (what a tag means - platform, phases, batteries - is table data)
+        for tag in tl["ET"]:
+            if tag not in tags:
+                yield {"family": "ET", "tag": tag, "rated": 5000, "refused": [], "battery": 1}
     for tag in tags:
         for rated in POWER_CLASSES:
             for k in range(len(ET_REFUSABLE) + 1):
